@@ -26,6 +26,7 @@ FAMILIES = {
     'Pass': ('stmt', ['pass', '__FST_', 'noop()']),
     'If': ('stmt', ['try:\n    __FST_\nfinally:\n    pass', '__FST_', 'while once:\n    __FST_\n    break']),
     'Assign': ('stmt', ['__FST_', 'if flag:\n    __FST_\nelse:\n    other()', 'with lock:\n    __FST_']),
+    'unwrap_list': ('expr', ['__FST_e', '__FST_e', '(__FST_e)', 'wrap(__FST_e)']),   # [[...]] -> [...]: still matches while nested
 }
 
 
@@ -51,12 +52,17 @@ def build_pattern(fam):
         return m.MIf
     if fam == 'Assign':
         return m.MAssign
+    if fam == 'unwrap_list':
+        return m.MList(elts=[m.M(e=m.MList)])
     raise KeyError(fam)
 
 
-def ref_matches(fam, n):
-    if getattr(n, '_tmpl', False) or getattr(n, '_nomatch', False):
+def ref_matches(fam, n, plain=False):
+    """plain=True: the direct re-match of the `loop` option (no protection of template / already placed nodes)."""
+    if not plain and (getattr(n, '_tmpl', False) or getattr(n, '_nomatch', False)):
         return False
+    if fam == 'unwrap_list':
+        return isinstance(n, ast.List) and len(n.elts) == 1 and isinstance(n.elts[0], ast.List)
     if fam == 'Name_load':
         return isinstance(n, ast.Name) and isinstance(n.ctx, ast.Load)
     if fam == 'Call':
@@ -137,9 +143,11 @@ def ordered_children(node, back):
 class Ref:
     """Reference substitution on a pure AST."""
 
-    def __init__(self, fam, tmpl, nested, count, on, back, skip_every):
+    def __init__(self, fam, tmpl, nested, count, on, back, skip_every, loop=False):
         self.fam, self.tmpl, self.nested, self.count, self.on, self.back = fam, tmpl, nested, count, on, back
         self.skip_every = skip_every
+        self.loop = loop
+        self.total = 0
         self.n = 0
         self.calls = 0
         self.done = False
@@ -163,6 +171,8 @@ class Ref:
                 val = node.left
             elif tag == 'r':
                 val = node.right
+            elif tag == 'e':
+                val = node.elts[0]
             else:
                 raise KeyError(tag)
             if getattr(val, '_placed', False):
@@ -203,6 +213,18 @@ class Ref:
                             v[i] = node
         return t
 
+    def fill_loop(self, node):
+        """Substitute at one location; with `loop` re-substitute while the result still matches (at most `loop` times,
+        the budget is per location)."""
+        new = self.fill(node)
+        self.total += 1
+        it = 1
+        while self.loop is not False and it < self.loop and ref_matches(self.fam, new, plain=True):
+            new = self.fill(new)
+            self.total += 1
+            it += 1
+        return new
+
     def walk(self, node, where):
         if self.done:
             return
@@ -213,7 +235,7 @@ class Ref:
                 if not skipped:
                     if hasattr(node, 'lineno') and not getattr(node, '_tmpl', False):
                         self.matched_extents.append((node.lineno, node.col_offset, node.end_lineno, node.end_col_offset))
-                    new = self.fill(node)
+                    new = self.fill_loop(node)
                     self.put(where, new)
                     self.n += 1
                     if self.count and self.n >= self.count:
@@ -243,7 +265,7 @@ class Ref:
                     if hasattr(node, 'lineno'):
                         self.matched_extents.append((node.lineno, node.col_offset, node.end_lineno, node.end_col_offset))
                     # in leave mode the matched node is not protected (it was already left)
-                    new = self.fill(node)
+                    new = self.fill_loop(node)
                     node._nomatch = False
                     self.put(where, new)
                     self.n += 1
@@ -327,7 +349,15 @@ class SubRun:
                 'back': rng.random() < 0.25, 'skip_every': rng.choice([0, 0, 2, 3]),
                 'burst': rng.choice([0, 1, 3]), 'burst_seed': rng.randrange(10 ** 6),
                 'form': rng.choice(['src', 'src', 'fst']),
+                'loop': rng.choice([False, False, 2, 3]) if fam == 'unwrap_list' or rng.random() < 0.25 else False,
             }
+            if req['loop']:
+                req['skip_every'] = 0   # callbacks are also called for each loop iteration: keep the two features apart
+                req['nested'] = False   # which nodes of an already looped location may match again is not documented
+            if fam == 'unwrap_list':     # something to unwrap, at several depths and at several places
+                fx = ['ux = [[[[uq]]]]', '[[up]]', 'uy = [[ua], [[ub]]]', 'ufn([[[uc, ud]]], [[[[[ue]]]]])', 'uz = [[[ur]], [[us]]]']
+                rng.shuffle(fx)
+                program = program.rstrip('\n') + '\n' + '\n'.join(fx[:rng.choice([2, 3, 5])]) + '\n'
             if not req['nested'] and req['on'] == 'enter':
                 req['skip_every'] = req['skip_every']  # skipping without nesting: matched node is not entered (search semantics)
         else:
@@ -371,12 +401,12 @@ class SubRun:
                 repl = tmpl if req['form'] == 'src' else FST(tmpl, 'expr' if kind == 'expr' else 'stmt')
                 try:
                     _, n_unique, n_total = root.subn(build_pattern(fam), repl, req['nested'], count=req['count'],
-                                                      on=req['on'], back=req['back'], callback=cb, callback_after=cb_after)
+                                                      on=req['on'], back=req['back'], loop=req.get('loop', False), callback=cb, callback_after=cb_after)
                 except Exception as e:
                     results.append(('exc', O.exc_repr(e), None, None))
                     continue
                 results.append(('ok', root.src, (n_unique, n_total), root))
-            self.tuples.add(f'{fam}|{req["tmpl"][:12]}|n{int(req["nested"])}|c{req["count"]}|{req["on"]}|b{int(req["back"])}|s{req["skip_every"]}|{results[0][0]}')
+            self.tuples.add(f'{fam}|{req["tmpl"][:12]}|n{int(req["nested"])}|c{req["count"]}|{req["on"]}|b{int(req["back"])}|s{req["skip_every"]}|l{req.get("loop", False)}|{results[0][0]}')
             log = [(r[0], r[1], r[2]) for r in results]
             self.judge(results, program, req)
         finally:
@@ -403,7 +433,7 @@ class SubRun:
             return self.fail('result_depends_on_queries_in_callbacks', f'with bursts: {a[:3]!r} without: {b[:3]!r}')
         # reference
         tree = ast.parse(program)
-        ref = Ref(req['fam'], req['tmpl'], req['nested'], req['count'], req['on'], req['back'], req['skip_every'])
+        ref = Ref(req['fam'], req['tmpl'], req['nested'], req['count'], req['on'], req['back'], req['skip_every'], req.get('loop', False))
         try:
             ref.run(tree)
         except RecursionError:
@@ -440,8 +470,8 @@ class SubRun:
             from .editsim import _first_diff
             return self.fail('result_differs_from_reference', _first_diff(want, got).replace('parsed:', 'reference:').replace('live:', 'sub():') + f' | request={req!r} src={root.src[:300]!r}')
         self.stats['structure_checks'] += 1
-        if a[2] != (ref.n, ref.n):
-            return self.fail('counts_differ_from_reference', f'subn={a[2]!r} reference={ref.n} | request={req!r}')
+        if a[2] != (ref.n, ref.total):
+            return self.fail('counts_differ_from_reference', f'subn={a[2]!r} reference={(ref.n, ref.total)!r} | request={req!r}')
         if req['tmpl'] == '__FST_' and sdump(ast.parse(program)) != got:
             return self.fail('identity_template_changes_structure', '')
         self.stats['substitutions'] += ref.n
